@@ -146,6 +146,8 @@ class Execution:
         self.deadlock = False
         self.pkg = pkg_dir()
         self.mask = (1 << self.k) - 1
+        self.untrace_after = None  # index of the last scheduling decision that can matter (set by explore for 2-thread, budget-exhausted runs)
+        self.untraced = False
 
     # ---- scheduling
     def _mask(self):
@@ -164,6 +166,10 @@ class Execution:
         if self.record:
             self.where.append((frame.f_code.co_filename[len(self.pkg):], frame.f_lineno, frame.f_lasti))
         nxt = self.dev.get(i, tid)
+        if self.untrace_after is not None and i >= self.untrace_after:
+            # the last decision of this schedule: with two threads and the preemption budget used up nothing after it can be enumerated,
+            # so the rest of the execution (the other thread to its end, then this one) runs untraced - same schedule, no per-line cost
+            self.untraced = True
         if nxt != tid:
             if self.done[nxt] or self.blocked[nxt] is not None:
                 self.diverged = f"point {i}: schedule wants thread {nxt} which is not enabled"
@@ -236,6 +242,9 @@ class Execution:
         fast = not self.record
 
         def local(frame, event, arg):
+            if exe.untraced:
+                sys.settrace(None)
+                return None
             if event == gran:
                 if fast and len(trace) not in dev:
                     trace_append(tid)
@@ -250,6 +259,9 @@ class Execution:
             return local
 
         def tr(frame, event, arg):
+            if exe.untraced:
+                sys.settrace(None)
+                return None
             if frame.f_code.co_filename.startswith(pkg):
                 if gran == "opcode":
                     frame.f_trace_opcodes = True
@@ -381,6 +393,7 @@ def harness(name, kind):
                 def body():
                     made = [m.rating(), m.rating(1.5 * b, 0.5 * b, tag), m.create_rating([2.0 * b, 0.25 * b], tag + "c"), m.rating(name=tag + "d")]
                     cp = copy.deepcopy([made[:2]])
+                    made.append(m.rating(0.5 * b, b, tag + "z"))  # the last construction of the body is one whose id is kept (a copy's is overwritten)
                     obs = [_bits(x) for x in made] + [[x.name for x in made], _bits(cp), [y.id == x.id for y, x in zip(cp[0], made)],
                                                        made[1] < made[2], made[0] == made[3], _bits(sorted(made)), _bits(made[1].ordinal())]
                     return {"obs": obs, "ids": [x.id for x in made]}
@@ -394,19 +407,19 @@ def harness(name, kind):
         elif name == "H14":  # IDENTICAL games in both threads (same values, other objects): a value-keyed memo in the shared helpers is
             # hit by one thread with the key the other thread is in the middle of writing
             def twin(tag):
-                # a decisive game whose outcome is given out of listing order, then a 3-team game with a tie and two decisive pairs:
+                # a drawn game, then a 3-team game with a tie and two decisive pairs whose outcome is given out of listing order:
                 # several DIFFERENT argument tuples reach the shared helpers within one thread (so a last-call memo misses) and the
                 # SAME tuples, the same outcome vectors and the same team counts occur in both threads (so one thread can hit what
                 # the other is in the middle of writing - or, from a cold start, creating)
                 ga = [[r(6 * b, 2 * b, tag + "0")], [r(5 * b, 2 * b, tag + "1")]]
                 gc = [[r(7 * b, b, tag + "2")], [r(5 * b, 2 * b, tag + "3"), r(4 * b, s, tag + "4")], [r(6 * b, 3 * b, tag + "5")]]
-                gd = [[r(6 * b, b, tag + "6")], [r(5.5 * b, 2 * b, tag + "7")], [r(6.5 * b, 0.5 * b, tag + "8")]]  # three-way tie: three tie pairs
-                return lambda: [_bits(m.rate(ga, ranks=[1, 0])), _bits(m.rate(gc, ranks=[1, 0, 1])), _bits(m.rate(gd, scores=[2, 2, 2]))]
+                # a drawn 1v1 (one tie pair), then three teams with the outcome out of listing order: a second tie pair and two decisive pairs
+                return lambda: [_bits(m.rate(ga, scores=[2, 2])), _bits(m.rate(gc, ranks=[1, 0, 1]))]
             bodies = [twin("x"), twin("y")]
         elif name == "H15":  # identical 3-team games through the three predictors in both threads
             def twinp(tag):
                 gp = [[r(6 * b, 2 * b, tag + "0")], [r(5 * b, b, tag + "1"), r(4 * b, s, tag + "2")], [r(7 * b, 3 * b, tag + "3")]]
-                return lambda: [_bits(m.predict_win(gp)), _bits(m.predict_draw(gp)), _bits(m.predict_rank(gp))]
+                return lambda: [_bits(m.predict_win(gp)), _bits(m.predict_draw(gp))]  # predict_rank shares its pair loop with predict_win; H13 has all three
             bodies = [twinp("x"), twinp("y")]
         elif name == "H6":  # same-shaped concurrent updates with opposite outcomes + per-call tau on both
             bodies = [lambda: _bits(m.rate(g0, ranks=[0, 1], tau=0.25 * b)), lambda: _bits(m.rate(g1, ranks=[1, 0], tau=b))]
@@ -452,11 +465,12 @@ def solo(mk):
     return snap0, out
 
 
-def run_once(mk, dev, first, gran, record=False):
+def run_once(mk, dev, first, gran, record=False, untrace_after=None):
     m, bodies = mk()
     shim_existing_locks(m)
     ex = Execution(bodies, dev, first, gran)
     ex.record = record
+    ex.untrace_after = untrace_after
     ex.run()
     ex.model_snap = e2.snap_model(m)
     ex.probe = None
@@ -506,9 +520,9 @@ def in_child(fn):
     return val
 
 
-def run_once_cold(mk, dev, first, gran, record=False):
+def run_once_cold(mk, dev, first, gran, record=False, untrace_after=None):
     def job():
-        ex = run_once(mk, dev, first, gran, record=record)
+        ex = run_once(mk, dev, first, gran, record=record, untrace_after=untrace_after)
         return {"trace": ex.trace, "alive": ex.alive, "helper": ex.helper, "where": ex.where, "results": ex.results,
                 "diverged": ex.diverged, "deadlock": ex.deadlock, "model_snap": ex.model_snap, "probe": ex.probe}
 
@@ -683,7 +697,8 @@ def explore(mk, gran, bound, shard=(0, 1), max_exec=None, end_choices="all", onl
                         return res
                     nd = dict(dev)
                     nd[i] = u
-                    e1 = run(mk, nd, first, gran)
+                    # two threads and no budget left after this deviation: nothing behind it will be enumerated
+                    e1 = run(mk, nd, first, gran, untrace_after=(i if (k == 2 and ncost >= bound and running >= 0) else None))
                     total += 1
                     account(e1, nd, first, ncost)
                     stack.append((e1, nd, ncost, i))
